@@ -24,6 +24,17 @@ STRENGTH = {
     "C14-m4": "missed at first; caught after the lookups-racing-toggles case",
     "C07-m1": "caught by random histories at first, missed after the generator changed, caught for good by the directed replay scenarios",
     "C05-m2": "written against the delta-counting merge that was later repaired (d18db5e): no longer applies",
+    "C02-m5": "missed at first; caught after repeated CONNECT packets with the clean-session flag on a connection that holds subscriptions and links",
+    "C02-m6": "missed at first; caught after the colliding pair y/ , y/x/x/ (one stored filter a proper prefix of the other, same bookkeeping key)",
+    "C07-m5": "missed at first; caught after last values of 2^31 and above (subscribe and history requests)",
+    "C07-m6": "missed at first; caught after retained publishes without payload",
+    "C08-m6": "missed at first; caught after sessions that never send CONNECT",
+    "C09-m5": "missed at first; caught after survey answers that arrive after the survey ended (stub gossiper with 1-3 peers)",
+    "C09-m6": "missed at first; caught after the subscriber that never reads (a connection whose writes block until the write deadline, clock scaled 400x)",
+    "C12-m5": "missed at first; caught after key texts crafted to have a chosen 32-bit murmur hash (same as the original, or differing by two permission bits), presented after the original",
+    "C16-m5": "missed at first; caught after 24 goroutines encoding different PUBLISH packets into a writer that yields before it copies",
+    "C19-m5": "missed at first; caught after 8 goroutines creating 20000 ids each",
+    "C19-m6": "missed at first; caught after messages encoded right after frames (shared encoder pool)",
     "C01-m6": "missed at first; caught after share groups of 129-300 members that are looked up, dissolved and followed by lookups of lone members",
     "C03-m5": "missed at first; caught after keys expiring at the edges of the 32-bit expiry field (2010, 2106-2146, clamped dates)",
     "C03-m6": "not seen by C03 / C14 (the alternate spelling decrypts to the same key); caught by C20 (the decoder must reject characters outside its alphabet)",
